@@ -1,6 +1,6 @@
 /-
 Line-protocol driver for C09: replays the harness's operation lines (with what the harness
-observed about store reads) through the per-key LTS models `WideCache` and `SetCache`.
+observed about store reads) through the per-key LTS models `WideCacheR` (the wide cache as the code is, generation check on) and `SetCache`.
 
 Foreground operations fire the model's foreground steps; `commit` / `notify` fire the background
 steps of every key the batch mentions; evictions are fired lazily: a read that went to the store
@@ -31,8 +31,8 @@ structure Drv where
   initD : List (Nat × Nat) := []
   initS : List (Nat × List Nat) := []
   hist : List Nat := []                 -- 0 begin, 1 submit, 2 commit (oldest first, reversed storage)
-  w : List (Nat × WideCache.State) := []
-  d : List (Nat × WideCache.State) := []
+  w : List (Nat × WideCacheR.State) := []
+  d : List (Nat × WideCacheR.State) := []
   s : List (Nat × SetCache.State) := []
   openKeys : List KeyRef := []
   submittedKeys : List (List KeyRef) := []
@@ -42,24 +42,24 @@ def lookup {α} (l : List (Nat × α)) (k : Nat) : Option α := (l.find? (·.1 =
 def store {α} (l : List (Nat × α)) (k : Nat) (v : α) : List (Nat × α) :=
   if l.any (·.1 == k) then l.map (fun p => if p.1 == k then (k, v) else p) else l ++ [(k, v)]
 
-def wideFires (s : WideCache.State) (evs : List WideCache.Ev) : Option WideCache.State :=
-  evs.foldlM (fun st e => (WideCache.fire st e).map (·.1)) s
+def wideFires (s : WideCacheR.State) (evs : List WideCacheR.Ev) : Option WideCacheR.State :=
+  evs.foldlM (fun st e => (WideCacheR.fire st e).map (·.1)) s
 
 def setFires (s : SetCache.State) (evs : List SetCache.Ev) : Option SetCache.State :=
   evs.foldlM (fun st e => (SetCache.fire st e).map (·.1)) s
 
-def histWide (h : List Nat) : List WideCache.Ev :=
+def histWide (h : List Nat) : List WideCacheR.Ev :=
   h.reverse.map fun c => if c == 0 then .begin 0 else if c == 1 then .submit 0 else .commit
 def histSet (h : List Nat) : List SetCache.Ev :=
   h.reverse.map fun c => if c == 0 then .begin else if c == 1 then .submit else .commit
 
 /-- state of a wide key, created on first mention by replaying the batch structure so far -/
-def getW (dr : Drv) (dyn : Bool) (k : Nat) : Option WideCache.State :=
+def getW (dr : Drv) (dyn : Bool) (k : Nat) : Option WideCacheR.State :=
   match lookup (if dyn then dr.d else dr.w) k with
   | some st => some st
-  | none => wideFires (WideCache.init (lookup (if dyn then dr.initD else dr.initW) k) 1) (histWide dr.hist)
+  | none => wideFires (WideCacheR.init true (lookup (if dyn then dr.initD else dr.initW) k) 1) (histWide dr.hist)
 
-def putW (dr : Drv) (dyn : Bool) (k : Nat) (st : WideCache.State) : Drv :=
+def putW (dr : Drv) (dyn : Bool) (k : Nat) (st : WideCacheR.State) : Drv :=
   if dyn then { dr with d := store dr.d k st } else { dr with w := store dr.w k st }
 
 def getS (dr : Drv) (k : Nat) : Option SetCache.State :=
@@ -95,26 +95,29 @@ def parseObs (toks : List String) : List Nat :=
   | none => []
 
 /-- a `get` of a wide key that was observed to read the store `n` times -/
-def wideGet (st : WideCache.State) (n : Nat) : Except String (WideCache.State × Option Nat) := do
+def wideGet (st : WideCacheR.State) (n : Nat) : Except String (WideCacheR.State × Option Nat) := do
   let mut cur := st
   for _ in [0:n] do
     match cur.entry with
     | some e =>
         if e.pin ≤ 0 then
-          match WideCache.fire cur .evict with
+          match WideCacheR.fire cur .evict with
           | some (s', _) => cur := s'
           | none => throw "not-enabled evict"
         else throw s!"inadmissible-miss pinned={e.pin}"
     | none => pure ()
-    match wideFires cur [.probe 0, .sfEnter 0, .readDb 0, .fill 0, .sfLeave 0] with
+    match wideFires cur [.readGen 0, .probe 0, .sfEnter 0, .readDb 0, .fill 0, .sfLeave 0] with
     | some s' => cur := s'
     | none => throw "not-enabled fill-path"
   match cur.entry with
   | none => throw "inadmissible-hit"
   | some _ =>
-      match WideCache.fire cur (.probe 0) with
-      | some (s', some r) => return (s', r)
-      | _ => throw "not-enabled probe"
+      match WideCacheR.fire cur (.readGen 0) with
+      | some (s1, _) =>
+          match WideCacheR.fire s1 (.probe 0) with
+          | some (s', some r) => return (s', r)
+          | _ => throw "not-enabled probe"
+      | none => throw "not-enabled readGen"
 
 def nat? (s : String) : Option Nat := s.toNat?
 
@@ -144,10 +147,10 @@ def step (dr : Drv) (line : String) : Drv × String :=
       | _, _, _ => bad
   | ["begin"] | ["submit"] | ["commit"] =>
       let code := if toks == ["begin"] then 0 else if toks == ["submit"] then 1 else 2
-      let wev : WideCache.Ev := if code == 0 then .begin 0 else if code == 1 then .submit 0 else .commit
+      let wev : WideCacheR.Ev := if code == 0 then .begin 0 else if code == 1 then .submit 0 else .commit
       let sev : SetCache.Ev := if code == 0 then .begin else if code == 1 then .submit else .commit
-      let w' := dr.w.mapM fun (k, st) => (WideCache.fire st wev).map fun r => (k, r.1)
-      let d' := dr.d.mapM fun (k, st) => (WideCache.fire st wev).map fun r => (k, r.1)
+      let w' := dr.w.mapM fun (k, st) => (WideCacheR.fire st wev).map fun r => (k, r.1)
+      let d' := dr.d.mapM fun (k, st) => (WideCacheR.fire st wev).map fun r => (k, r.1)
       let s' := dr.s.mapM fun (k, st) => (SetCache.fire st sev).map fun r => (k, r.1)
       -- the structure itself must be well formed even when no key exists yet
       let okStruct :=
@@ -176,7 +179,7 @@ def step (dr : Drv) (line : String) : Drv × String :=
               | none => none
             else
               match lookup (if r.kind == 1 then dr.d else dr.w) r.key with
-              | some st => (WideCache.fire st .notify).map fun x => putW dr (r.kind == 1) r.key x.1
+              | some st => (WideCacheR.fire st .notify).map fun x => putW dr (r.kind == 1) r.key x.1
               | none => none) { dr with committedKeys := rest }
           match r with
           | some dr => (dr, "ok")
